@@ -203,10 +203,10 @@ def main(tier: str, seed: int) -> int:
     rep.assumptions = ['leaf scripts are pairwise different, so sibling commitments differ (precondition of the property)',
                        'symbolic hashes: collisions excluded']
     quick = tier == 'quick'
-    scncheck.mc(rep, 'Merkle', 'shapes', INV, run_mc, consts={'MaxLeaves': 6 if quick else 8}, workers=8)
+    scncheck.mc(rep, 'Merkle', 'shapes', INV, run_mc, consts={'MaxLeaves': 7 if quick else 8}, workers=8)
     scncheck.mc(rep, 'Merkle', 'builders', INV, run_mc, consts={'MaxLeaves': 12 if quick else 24}, workers=4)
     import multiprocessing as mp
-    n = 1500 if quick else 30000
+    n = 6000 if quick else 40000
     with mp.get_context('fork').Pool(14) as pool:
         cases = [c for ch in pool.map(record_random, [(seed * 47 + i, n // 28) for i in range(28)]) for c in ch]
     for cse in cases:       # leftover is only defined when a leaf ran; align with the specification's count otherwise
